@@ -7,7 +7,7 @@ LEVEL = 'fault_enumeration'
 RULE = ('DAGs of 2-9 nodes x generated subsets of failing nodes x failure kind {raise ValueError/KeyError/custom Exception, '
         'Exception that cannot be pickled, sys.exit(), custom BaseException, SIGKILL, SIGTERM, os._exit(0) without reporting (process backends and simulated '
         'death under the ControlledRunner)} x strict-reader / non-reading dependents x continue_on_failure in {True, False} x '
-        'backends {ControlledRunner, serial, fork, spawn} x schedules x cache pre-states. Oracle (continue_on_failure=True): '
+        'backends {ControlledRunner, serial, fork, spawn} x progress/monitor displays {off, off, on} x schedules x cache pre-states. Oracle (continue_on_failure=True): '
         'run_tasks returns; returned keys/values == reference over the successful requested nodes in request order; every node '
         'the reference executes has a run() record; is_cached afterwards == reference cache model (exactly the successful '
         'cacheable nodes, nothing for failed nodes or readers of failed nodes). (False): run_tasks raises LabError whose '
@@ -35,6 +35,8 @@ def check(spec: dict) -> core.CaseResult:
         labels.append('fail=' + ex.why[i])
     if any(w.startswith('dep:') for w in ex.why.values()):
         labels.append('reader_of_failed_dependency')
+    if spec['lab'].get('displays'):
+        labels.append('displays_on')
     return dagprop.result(obs, findings, nt, labels, hang_is_violation=True, prop='C10')
 
 
@@ -58,6 +60,9 @@ def run_job(rec: core.Recorder, job: dict, seed: int) -> None:
         fail += ['kill9', 'kill15', 'exit0']
     strat = specs.dag_spec(min_nodes=2, max_nodes=5 if eng == 'spawn' else 9, backends=(eng,), fail_modes=fail, fail_rate=30,
                            noread_rate=30, continue_on_failure=(True, True, False), bust=True)
+    from hypothesis import strategies as st
+    # the progress bars and the task monitor are part of the run loop (default: shown): a third of the cases runs with them on
+    strat = st.builds(lambda sp, disp: {**sp, 'lab': {**sp['lab'], 'displays': disp == 0}}, strat, st.integers(0, 2))
     core.run_hypothesis(rec, eng, strat, check, max_examples=job['n'], seed=seed,
                         shrink=(eng == 'controlled' or rec.tier == 'thorough'))
 
